@@ -16,16 +16,22 @@ def seq(x):
     return codec.seq(x)
 
 
+def env_kwarg(setting):
+    """env= keyword of Schema / Field for an environment setting record of the specification."""
+    m = (setting or {"m": "inherit"})["m"]
+    if m == "auto":
+        return {"env": True}
+    if m == "off":
+        return {"env": False}
+    if m == "name":
+        return {"env": "".join(seq(setting["n"]))}
+    return {}
+
+
 def build_schema(cinco, d, root=None, top=True, validators=None):
     """Real Schema for a schema descriptor (SchemaF record)."""
     kw = {}
-    senv = d.get("senv", "inherit")
-    if senv == "auto":
-        kw["env"] = True
-    elif senv == "off":
-        kw["env"] = False
-    elif senv != "inherit":
-        kw["env"] = "".join(seq(senv))
+    kw.update(env_kwarg(d.get("senv")))
     if d.get("dynamic"):
         kw["dynamic"] = True
     if d.get("fname"):
@@ -68,13 +74,7 @@ def build_schema_topdown(cinco, d, root=None, validators=None):
     """Build the schema the way applications do: parents are bound before children are added,
     so that environment prefixes are derived top-down."""
     kw = {}
-    senv = d.get("senv", "inherit")
-    if senv == "auto":
-        kw["env"] = True
-    elif senv == "off":
-        kw["env"] = False
-    elif senv != "inherit":
-        kw["env"] = "".join(seq(senv))
+    kw.update(env_kwarg(d.get("senv")))
     if d.get("dynamic"):
         kw["dynamic"] = True
     schema = cinco.Schema(**kw)
@@ -86,13 +86,7 @@ def _fill_topdown(cinco, schema, d, root, validators):
     for key, f in seq(d["fields"]):
         if f["kind"] == "schema" and not f.get("ctype"):
             kw = {}
-            senv = f.get("senv", "inherit")
-            if senv == "auto":
-                kw["env"] = True
-            elif senv == "off":
-                kw["env"] = False
-            elif senv != "inherit":
-                kw["env"] = "".join(seq(senv))
+            kw.update(env_kwarg(f.get("senv")))
             if f.get("dynamic"):
                 kw["dynamic"] = True
             if f.get("fname"):
